@@ -3,7 +3,7 @@ Proof: Props/C02.lean (model = spec for all types and values; spec is an equival
 identity). Tie: T1 on the type corpus (ops equal / equalc / equalf)."""
 from vlib import common
 
-PLUGINS = ["equal"]
+PLUGINS = ["equal", "compare", "hash"]
 OPS = {"equal", "equalc", "equalf"}
 
 
